@@ -54,8 +54,23 @@ def m3(root: str) -> None:
     _sub(p, "class MissingGroupSize(", "_ABS_INDEX_CACHE: dict = {}\n\n\nclass MissingGroupSize(")
 
 
+def _set_order_back(root: str) -> None:
+    p = root + "/tealer/teal/subroutine.py"
+    _sub(
+        p,
+        "        return list(\n            dict.fromkeys(bi.called_subroutine for bi in self._blocks if bi.is_callsub_block)\n        )",
+        "        return list(set(bi.called_subroutine for bi in self._blocks if bi.is_callsub_block))",
+    )
+
+
+def m15(root: str) -> None:
+    """called_subroutines goes back to list(set(objects)) (the defect fixed in /repo returns)"""
+    _set_order_back(root)
+
+
 def m5(root: str) -> None:
-    """an iteration cap in the forward solver: whether the fixpoint is reached depends on the worklist order"""
+    """set order back in called_subroutines plus an iteration cap in the forward solver: whether the fixpoint is reached depends on the worklist order"""
+    _set_order_back(root)
     p = root + "/tealer/analyses/dataflow/transaction_context/generic.py"
     _sub(
         p,
@@ -131,6 +146,16 @@ def m13(root: str) -> None:
     _sub(p, "            if bi_next != valid_next:\n", "            if bi_next != valid_next and j == 0:\n")
 
 
+def m14(root: str) -> None:
+    """reported paths de-duplicated through a set of block tuples: order follows object addresses (no hook there)"""
+    p = root + "/tealer/detectors/utils.py"
+    _sub(
+        p,
+        "    search_paths(entry_block, [], paths_without_check, [(None, function.main)], [[]])\n\n    return paths_without_check\n",
+        "    search_paths(entry_block, [], paths_without_check, [(None, function.main)], [[]])\n\n    return [list(p) for p in set(tuple(p) for p in paths_without_check)]\n",
+    )
+
+
 MUTANTS: Dict[str, Tuple[Callable[[str], None], str, Dict[str, str]]] = {
     "m1": (m1, "C14", {"SIM_N_FREE": "96", "SIM_N_FAULT": "0"}),
     "m2": (m2, "C14", {"SIM_N_FREE": "96", "SIM_N_FAULT": "0"}),
@@ -144,6 +169,8 @@ MUTANTS: Dict[str, Tuple[Callable[[str], None], str, Dict[str, str]]] = {
     "m11": (m11, "C12", {"SIM_N_FREE": "48", "SIM_N_FAULT": "0"}),
     "m12": (m12, "C18", {}),
     "m13": (m13, "C12", {"SIM_N_FREE": "64", "SIM_N_FAULT": "0"}),
+    "m14": (m14, "C14", {"SIM_N_FREE": "128", "SIM_N_FAULT": "0"}),
+    "m15": (m15, "C14", {"SIM_N_FREE": "160", "SIM_N_FAULT": "0"}),
 }
 
 
